@@ -89,6 +89,15 @@ struct MapSt {
     file_sig: Option<[u64; 3]>,
 }
 
+#[cfg(feature = "hooks")]
+fn take_trace() -> Vec<(String, &'static str)> {
+    abyssiniandb::filedb::verif::take_io_trace()
+}
+#[cfg(not(feature = "hooks"))]
+fn take_trace() -> Vec<(String, &'static str)> {
+    Vec::new()
+}
+
 pub fn fnv(data: &[u8]) -> u64 {
     let mut h: u64 = 0xcbf29ce484222325;
     for chunk in data.chunks(8) {
@@ -149,6 +158,10 @@ pub struct Exec<'a> {
     curm: usize,
     pub rep: Report,
     held_iters: Vec<Box<dyn std::any::Any>>,
+    /// called right before a flush/sync call (op index)
+    pub on_sync_begin: Option<Box<dyn FnMut(usize) + 'a>>,
+    /// called right after a flush/sync call returned Ok: (op index, names of the files that had to be OS-synced)
+    pub on_sync_end: Option<Box<dyn FnMut(usize, &[String]) + 'a>>,
 }
 
 impl<'a> Exec<'a> {
@@ -161,6 +174,8 @@ impl<'a> Exec<'a> {
             curm: 0,
             rep: Report::default(),
             held_iters: Vec::new(),
+            on_sync_begin: None,
+            on_sync_end: None,
         };
         if h.excluded > 0 {
             e.rep.add("excluded_draws", h.excluded);
@@ -758,8 +773,12 @@ impl<'a> Exec<'a> {
     fn sync_op(&mut self, i: usize, op: &Op) -> Result<(), Failure> {
         let o = Some(i);
         let obs = self.h.obs.clone();
-        let _ = abyssiniandb::filedb::verif::take_io_trace();
+        let _ = take_trace();
         let whole_db = matches!(op, Op::DbSyncData | Op::DbSyncAll);
+        if let Some(hk) = self.on_sync_begin.as_mut() {
+            hk(i);
+        }
+        let mut need_synced: Vec<String> = Vec::new();
         let r = match op {
             Op::Flush => self.hnd().flush(),
             Op::SyncData => self.hnd().sync_data(),
@@ -771,7 +790,7 @@ impl<'a> Exec<'a> {
         if let Err(e) = r {
             fail!("error", o, "{:?} returned Err: {e}", op);
         }
-        let trace = abyssiniandb::filedb::verif::take_io_trace();
+        let trace = take_trace();
         self.rep.bump("sync_point");
         let targets: Vec<usize> = if whole_db {
             (0..self.maps.len()).collect()
@@ -808,6 +827,7 @@ impl<'a> Exec<'a> {
                             changed_all = false;
                             continue;
                         }
+                        need_synced.push(file_names(&name)[fi].clone());
                         // the trace is per thread and carries the buffered file's name only;
                         // with several maps we can only count events per kind
                         let n_events = trace
@@ -853,6 +873,9 @@ impl<'a> Exec<'a> {
             for &mi in &targets {
                 self.maps[mi].updates_since_sync = 0;
             }
+        }
+        if let Some(hk) = self.on_sync_end.as_mut() {
+            hk(i, &need_synced);
         }
         Ok(())
     }
@@ -1002,7 +1025,27 @@ impl<'a> Exec<'a> {
             if let Some(c) = d.tiling.first() {
                 fail!("tiling", o, "map {name} {when}: {c} ({} complaints)", d.tiling.len());
             }
-            self.check_growth(o, mi, d)?;
+            // the per-call rules need every call boundary to be observed
+            if self.h.obs.decode_every_op {
+                let batch = o
+                    .and_then(|i| self.h.ops.get(i))
+                    .map(|op| {
+                        matches!(
+                            op,
+                            Op::BulkPut { .. }
+                                | Op::BulkPutStr { .. }
+                                | Op::PutFromIter { .. }
+                                | Op::BulkDel { .. }
+                                | Op::BulkDelStr { .. }
+                        )
+                    })
+                    .unwrap_or(false);
+                if batch {
+                    // several calls in one op: call boundaries inside the batch are not observed
+                    self.maps[mi].prev = None;
+                }
+                self.check_growth(o, mi, d)?;
+            }
         }
         // relocation detection (label only)
         if let Some(prev) = &self.maps[mi].prev {
@@ -1105,6 +1148,16 @@ impl<'a> Exec<'a> {
                 let p = tr.peak_live.entry(*sz).or_insert(0);
                 if *n > *p {
                     *p = *n;
+                }
+            }
+            if prevt.is_none() {
+                // first observed state (possibly an image with a history we did not see): every
+                // existing slot counts as having been in use at once
+                for (sz, n) in &all {
+                    let p = tr.peak_live.entry(*sz).or_insert(0);
+                    if *n > *p {
+                        *p = *n;
+                    }
                 }
             }
             let slack = tr.max_alloc_per_call.max(1);
@@ -1485,4 +1538,56 @@ pub fn stats_diff(got: &StatsOut, exp: &StatsOut) -> Option<String> {
         ));
     }
     None
+}
+
+
+/// pure model semantics of a history: the models of all maps after the first `n_ops` ops
+pub fn model_after(h: &History, n_ops: usize) -> Vec<BTreeMap<Vec<u8>, Vec<u8>>> {
+    let keys: Vec<Vec<Vec<u8>>> = h
+        .maps
+        .iter()
+        .map(|m| m.keys.iter().map(|k| k.bytes()).collect())
+        .collect();
+    let mut models: Vec<BTreeMap<Vec<u8>, Vec<u8>>> = vec![BTreeMap::new(); h.maps.len()];
+    let mut cur = 0usize;
+    let key = |m: usize, k: u16| -> Vec<u8> { keys[m][k as usize % keys[m].len()].clone() };
+    for op in h.ops.iter().take(n_ops) {
+        match op {
+            Op::Put { k, v } => {
+                models[cur].insert(key(cur, *k), v.bytes());
+            }
+            Op::PutStr { k, v } => {
+                models[cur].insert(key(cur, *k), lossy(&v.bytes()).into_bytes());
+            }
+            Op::Del { k } | Op::DelStr { k } => {
+                models[cur].remove(&key(cur, *k));
+            }
+            Op::BulkDel { ks } | Op::BulkDelStr { ks } => {
+                for k in ks {
+                    models[cur].remove(&key(cur, *k));
+                }
+            }
+            Op::BulkPut { kvs } | Op::BulkPutStr { kvs } => {
+                let is_str = matches!(op, Op::BulkPutStr { .. });
+                let mut seen: Vec<Vec<u8>> = Vec::new();
+                for (k, v) in kvs {
+                    let kb = key(cur, *k);
+                    if seen.contains(&kb) {
+                        continue;
+                    }
+                    seen.push(kb.clone());
+                    let vb = if is_str { lossy(&v.bytes()).into_bytes() } else { v.bytes() };
+                    models[cur].insert(kb, vb);
+                }
+            }
+            Op::PutFromIter { kvs } => {
+                for (k, v) in kvs {
+                    models[cur].insert(key(cur, *k), v.bytes());
+                }
+            }
+            Op::Use { m } => cur = *m as usize % h.maps.len(),
+            _ => {}
+        }
+    }
+    models
 }
